@@ -11,8 +11,9 @@ RULE = ('(target, patch) pairs: random documents with nested objects, patches de
         'constant-key flags on the target; (from, to) pairs: a document and a mutation of it (member added / removed / changed / retyped at '
         'depth <= 3, numbers moved by one ulp), independent pairs, `to` with and without null members; the generated patch is applied by the '
         'library and by an independent python RFC 7396 implementation; verdict: result doc_eq the RFC result (case-sensitive, distinct keys), '
-        'round trip from+patch = to (no null member in `to`), inputs unchanged up to member order, patch operand untouched, links healthy, '
-        'ledger balanced; non-trivial = both operands present and at least one of them an object')
+        'round trip from+patch = to (no null member in `to`), NULL patch exactly for equal objects, inputs unchanged up to member order, patch operand untouched, links healthy, '
+        'ledger balanced; also keys differing only by case below the first level, numbers within compare_double tolerance with different integer '
+        'views, raw / NaN / invalid-type nodes (robustness), patches nested beyond CJSON_CIRCULAR_LIMIT (failed recursion -> NULL); non-trivial = both operands present and at least one of them an object')
 ASSUMPTIONS = ['C locale (tolower)', 'hand-written value-level transliteration validated by this differential run',
                'allocation failures inside merge/generate are not modelled at this tier (C08 covers failure cleanliness of the primitives)',
                'python float arithmetic is IEEE binary64 (used by the verdict)']
@@ -380,6 +381,7 @@ def verdict(c, out, ctx):
             res = frm if patch is None else rfc7396(frm, patch)
             if not doc_eq(res, to): return 'RFC 7396 MergePatch(from, generated patch) differs from `to`' + (' (no patch generated)' if patch is None else '')
             if applied_ok != 'apply=1' or not doc_eq(applied, to): return 'applying the generated patch with the library does not give `to`'
+            if patch is not None and frm[0] == 'o' and to[0] == 'o' and doc_eq(frm, to): return 'a patch was generated for two equal objects'
         return None
     except Exception as e:
         return 'malformed output (%r)' % (e,)
